@@ -507,6 +507,7 @@ class FastInterp:
 def run(ctx):
     r4(ctx)
     r5(ctx)
+    r6(ctx)
     repo = ctx.repo
     ctx.rule("C13.R1", "field-by-field agreement of the hand-written reader with the template: same output keys "
                        "in the same wire order, same gate flag, same wire signature")
@@ -1004,3 +1005,78 @@ def r5(ctx):
                f"but its deserialize yields None for an empty terminated section: with {f['gate'][0]} set the payload comes "
                f"back one terminator short")
     ctx.floor("C13.R5", "gated sections", n, 10)
+
+
+def r6(ctx):
+    """Re-encoding reproduces the payload only if the encode side writes sequence-valued sections in the order they
+    were decoded.  Every codec class on the compressed template's path (the fields, the shared sub-templates they name
+    and the classes those are built from) is inspected: its encode / serialize method - and the same-class helpers it
+    calls - may not sort, de-duplicate through a set, or reverse the value (a reversal is accepted when the decode side
+    of the same class has one too)."""
+    repo = ctx.repo
+    ctx.rule("C13.R6", "encode side keeps decoded order: no codec class on the compressed template's path sorts, dedupes through a "
+                       "set or (one-sidedly) reverses the value it writes")
+    _tfields, _ff, tci = template_fields(ctx)
+    tnode = repo.class_attr(tci, "TEMPLATE")
+    mod = tci.module
+    seen_names, classes = set(), {}
+    work = [tnode]
+    sermod = repo.module(SER)
+    while work:
+        n = work.pop()
+        for x in ast.walk(n):
+            name = None
+            if isinstance(x, ast.Name):
+                name = x.id
+            elif isinstance(x, ast.Attribute) and isinstance(x.value, ast.Name) and x.value.id in ("se", "tmpls"):
+                name = x.attr
+            if not name or name in seen_names:
+                continue
+            seen_names.add(name)
+            for m_ in (mod, sermod):
+                ci = repo.resolve_class(name, m_)
+                if ci is not None:
+                    for c in repo.mro(ci):
+                        if c.module.rel.startswith("hippolyzer/"):
+                            classes[c.qual if hasattr(c, "qual") else c.name] = c
+                    break
+                tgt = repo.module_assign(m_, name)
+                if tgt is not None and m_ is mod:
+                    work.append(tgt)
+                    break
+    ctx.floor("C13.R6", "codec classes on the template's path", len(classes), 10)
+    ORDER_OPS = {"sorted": "sorts", "set": "dedupes through a set", "frozenset": "dedupes through a set", "reversed": "reverses"}
+    for cname, ci in sorted(classes.items()):
+        for side, other in (("encode", "decode"), ("serialize", "deserialize")):
+            f = ci.methods.get(side)
+            if f is None:
+                continue
+            fns = [f] + [ci.methods[c.func.attr] for c in calls(f.node) if isinstance(c.func, ast.Attribute) and
+                         isinstance(c.func.value, ast.Name) and c.func.value.id in ("self", "cls") and c.func.attr in ci.methods
+                         and c.func.attr not in (side, other)]
+            found = []
+            for g in fns:
+                for c in calls(g.node):
+                    nm = ap(c.func) or ""
+                    if nm in ORDER_OPS and c.args:
+                        found.append((g, c, ORDER_OPS[nm]))
+                    elif isinstance(c.func, ast.Attribute) and c.func.attr in ("sort", "reverse") and not c.args:
+                        found.append((g, c, "sorts in place" if c.func.attr == "sort" else "reverses"))
+            o = repo.lookup_method(ci, other)
+            o_rev = o is not None and any((ap(c.func) or "") == "reversed" or (isinstance(c.func, ast.Attribute) and c.func.attr == "reverse")
+                                          for c in calls(o.node))
+            bad = [(g, c, what) for g, c, what in found if not (what == "reverses" and o_rev)]
+            # a membership / equality test on a set built from the value does not change what is written
+            bad = [(g, c, what) for g, c, what in bad
+                   if not any(isinstance(a, (ast.Compare,)) for a in _ancestors(c))]
+            ctx.ob("C13.R6", f"{ci.name}.{side} writes the value in its decoded order", not bad,
+                   ctx.w(bad[0][0], bad[0][1]) if bad else f.where,
+                   f"{ci.name}.{side} {bad[0][2]} the value (`{norm(bad[0][1])[:70]}`): a payload whose elements are not already in "
+                   f"that order decodes fine in both decoders but re-encodes to different bytes" if bad else "")
+
+
+def _ancestors(n):
+    p = getattr(n, "_parent", None)
+    while p is not None:
+        yield p
+        p = getattr(p, "_parent", None)
